@@ -4,8 +4,11 @@ package main
 // Streams `evalorder` (property C52) and `vmeq` (property C34): generated μCadence programs, each run
 // on the real runtime three ways — interpreter, VM, VM + peephole — from fresh identical ledgers.
 //
-// op line:   <stream> \t <label> \t once=<ids> \t max=<n> \t forms=<f,...> \t <source>
-// go result: <sx> @@ <obs interp> @@ <obs vm> @@ <obs vmopt>
+// op line:   <stream> \t <label> \t once=<ids> \t max=<n> \t forms=<f,...> [\t depth=<limit>] \t <source>
+//            depth=<limit>: the three runs use runtime.Config.StackDepthLimit = limit
+// go result: <sx> @@ <obs interp> @@ <obs vm> @@ <obs vmopt> [@@ shapes=<s,...>]
+//   shapes (only with depth=): `arg-nested-call`, `native-call` (sx.DepthShapes on the real AST): the shapes
+//         of the known finding call-depth-counts-argument-nesting
 //   sx  = S-expression of the *checked program the runtime parsed* (internal/sx), or `oof:<reason>`
 //         when a node lies outside the model's fragment (`oof:<reason>#unboxed-cond` when the program
 //         contains a conditional expression as the left operand of `??` or the target of `?.`, the shape
@@ -33,6 +36,8 @@ func genLang(c *hx.Ctx, stream, profile string) {
 			p = lang.GenerateL0Wrapped(r, lang.PickWrap(r.Fork(), 34))
 		case profile == "values" && i%6 == 0:
 			p = lang.GenerateIter(r) // iteration + mutation of containers, nested over the same container
+		case profile == "values" && i%12 == 4:
+			p = lang.GenerateDepth(r) // recursion near a small configured stack-depth limit
 		case profile == "values" && i%6 == 2:
 			p = lang.GenerateClosurePeephole(r) // declined / rewritten peephole windows in front of jumps, in closures
 		case profile == "values":
@@ -44,14 +49,25 @@ func genLang(c *hx.Ctx, stream, profile string) {
 		for j, id := range p.Once {
 			ids[j] = strconv.Itoa(id)
 		}
-		c.Emit(stream, "g"+strconv.Itoa(i), "once="+strings.Join(ids, ","), "max="+strconv.Itoa(p.MaxID),
-			"forms="+strings.Join(p.Forms, ","), strings.ReplaceAll(p.Src, "\n", "\\n"))
+		fields := []string{stream, "g" + strconv.Itoa(i), "once=" + strings.Join(ids, ","), "max=" + strconv.Itoa(p.MaxID),
+			"forms=" + strings.Join(p.Forms, ",")}
+		if p.Depth > 0 {
+			fields = append(fields, "depth="+strconv.Itoa(p.Depth))
+		}
+		c.Emit(append(fields, strings.ReplaceAll(p.Src, "\n", "\\n"))...)
 	}
 }
 
 func execLang(op []string) string {
 	src := strings.ReplaceAll(op[len(op)-1], "\\n", "\n")
 	var sxs string
+	var depth uint64
+	for _, f := range op[:len(op)-1] {
+		if strings.HasPrefix(f, "depth=") {
+			depth, _ = strconv.ParseUint(f[len("depth="):], 10, 32)
+		}
+	}
+	shapes := ""
 	prog, err := lang.Check(src)
 	if err != nil {
 		sxs = "reject:" + firstKind(err)
@@ -63,9 +79,15 @@ func execLang(op []string) string {
 	} else {
 		sxs = s
 	}
+	if err == nil && depth > 0 {
+		shapes = strings.Join(sx.DepthShapes(prog), ",")
+	}
 	parts := []string{sxs}
 	for _, m := range []lang.Mode{lang.Interp, lang.VM, lang.VMPeephole} {
-		parts = append(parts, runBounded(src, m))
+		parts = append(parts, runBounded(src, m, depth))
+	}
+	if depth > 0 {
+		parts = append(parts, "shapes="+shapes)
 	}
 	return strings.Join(parts, " @@ ")
 }
@@ -73,7 +95,7 @@ func execLang(op []string) string {
 // runBounded: every run has the computation limit of lang.Run; an engine that still does not come back
 // (a compiled loop that never reaches a metered instruction) is reported as `hang|` for that engine
 // alone, so that the comparison of the three observations names it.
-func runBounded(src string, m lang.Mode) string {
+func runBounded(src string, m lang.Mode, depthLimit uint64) string {
 	done := make(chan string, 1)
 	go func() {
 		defer func() {
@@ -81,7 +103,7 @@ func runBounded(src string, m lang.Mode) string {
 				done <- "crash:escaped-panic|"
 			}
 		}()
-		done <- lang.Observation(lang.Run(src, m))
+		done <- lang.Observation(lang.RunDepth(src, m, depthLimit))
 	}()
 	select {
 	case o := <-done:
